@@ -109,7 +109,7 @@ def run_chunk(exe, backend, variant, scenario, base, first, count, opts, samples
             continue
         # the worker died in run number `done` of this chunk
         deaths.append({"seed": cur, "index": i + done, "rc": rc, "stderr": clip(err), "exe": exe, "backend": backend,
-                       "variant": variant, "scenario": scenario, "opts": dict(opts), "base": base})
+                       "variant": variant, "scenario": scenario, "opts": dict(opts), "base": base, "proc_first": i})
         i = i + done + 1
     return records, deaths
 
@@ -186,6 +186,26 @@ def run_list(exe, b, base, indices, timeout=1800):
                 continue
             sigs.append(x["evhash"] + x["status"] + x["sched_hash"])
     return sigs if len(sigs) == len(indices) else None
+
+
+def run_list_death(exe, b, base, indices, timeout=3600):
+    """like run_list, for crashes: returns (number of completed runs, rc, stderr)"""
+    cmd = list(b.get("wrapper") or []) + [exe, "run", "--scenario", b["scenario"], "--seed-base", str(base), "--list", ",".join(str(i) for i in indices),
+           "--backend", b["backend"], "--variant", b["variant"], "--samples", "0"]
+    if ORACLES:
+        cmd += ["--oracles", ",".join(ORACLES)]
+    for k, v in sorted(b.get("opts", {}).items()):
+        cmd += ["--opt", "%s=%s" % (k, v)]
+    env = dict(os.environ)
+    env.update(b.get("env", {}))
+    env.update(WORKER_ENV)
+    with WORKER_SLOTS:
+        try:
+            p = subprocess.run(cmd, stdout=subprocess.PIPE, stderr=subprocess.PIPE, timeout=timeout, env=env)
+        except subprocess.TimeoutExpired:
+            return 0, -999, "TIMEOUT"
+    done = sum(1 for line in p.stdout.decode(errors="replace").splitlines() if line.startswith("{"))
+    return done, p.returncode, clip(p.stderr.decode(errors="replace"))
 
 
 def history_dependence(exe, b, base, idx):
@@ -428,6 +448,16 @@ def do_replay(path):
         hist = run_list(exe, b, rp["base"], rp["indices"])
         print("replay: run %d alone -> %s ; after run(s) %s in the same process -> %s" % (rp["indices"][-1], alone, rp["indices"][:-1], hist[-1:] if hist else hist))
         if alone and hist and alone[0] != hist[-1]:
+            print("VIOLATION property=%s replay=%s" % (rp["property"], path))
+            return 1
+        print("replay did not reproduce the recorded violation")
+        return 0
+    if rp.get("kind") == "history-death":
+        b = {"scenario": rp["scenario"], "backend": rp["backend"], "variant": rp["variant"], "opts": rp.get("opts", {})}
+        done_, rcx, errx = run_list_death(exe, b, rp["base"], rp["indices"])
+        c, where = classify_death(rcx, errx)
+        print("replay: %d of %d runs completed, then %s at %s (expected %s)" % (done_, len(rp["indices"]), c, where, rp["violation"]["cls"]))
+        if done_ == len(rp["indices"]) - 1 and c == rp["violation"]["cls"]:
             print("VIOLATION property=%s replay=%s" % (rp["property"], path))
             return 1
         print("replay did not reproduce the recorded violation")
@@ -746,6 +776,45 @@ def do_check(prop, tier, seed, extra):
             ok = rec2 is None and c2 == cls
         else:
             ok = same_violation(rec2, cls, oracle)
+        if not ok and isdeath and "fork" not in b.get("opts", {}):
+            # (a) does the death need what the same process executed before?  re-run the dying process from its first run
+            d = v["death"]
+            idxs = list(range(d.get("proc_first", d["index"]), d["index"] + 1))
+            if len(idxs) > 1:
+                done_, rcx, errx = run_list_death(exe, b, d["base"], idxs)
+                cx, wherex = classify_death(rcx, errx)
+                if done_ == len(idxs) - 1 and cx == cls:
+                    done2, rcy, erry = run_list_death(exe, b, d["base"], idxs)
+                    if done2 == done_ and classify_death(rcy, erry)[0] == cls:
+                        hid = hashlib.sha1(("%s%s%s" % (b.get("name"), d["base"], idxs)).encode()).hexdigest()[:10]
+                        path = os.path.join(OUT, "replays", "%s-historydeath-%s.json" % (prop, hid))
+                        json.dump({"property": prop, "kind": "history-death", "scenario": b["scenario"], "backend": b["backend"], "variant": b["variant"], "tree": th,
+                                   "opts": b.get("opts", {}), "base": d["base"], "indices": idxs, "oracles": ORACLES,
+                                   "violation": {"cls": cls, "oracle": "worker-death", "detail": "%s in %s after runs %d..%d of the same process (the last plan alone does not die); stderr tail: %s" % (cls, wherex, idxs[0], idxs[-2], errx[-1200:])}},
+                                  open(path, "w"), indent=1)
+                        out_viol.append((path, "%s / worker-death after a process history of %d runs: %s" % (cls, len(idxs) - 1, errx[-300:])))
+                        continue
+        if not ok and isdeath:
+            # (b) a crash that depends on the address-space layout: more fresh processes
+            hits = 0
+            for _ in range(4):
+                recx, rcx, errx = run_plan(exe, plan, b["backend"], b["variant"])
+                if recx is None and classify_death(rcx, errx)[0] == cls:
+                    hits += 1
+                    err2 = errx
+            if hits:
+                ok = True
+                detail += " [reproduces in %d of 5 fresh processes]" % hits
+            else:
+                # (c) neither the plan (5 fresh processes) nor the process history reproduces it: nothing to report about the
+                # code under test; counted and shown, not a verdict
+                tr = cov.setdefault("transient_worker_deaths", [])
+                tr.append({"batch": b.get("name"), "class": cls, "seed": v["death"]["seed"], "stderr_tail": v["death"]["stderr"][-1500:]})
+                log("TRANSIENT worker death (plan passes in 5 fresh processes, process history passes): %s batch %s seed %s: %s" % (cls, b.get("name"), v["death"]["seed"], v["death"]["stderr"][-1500:]))
+                if len(tr) > 3:
+                    log("SIM-ERROR: more than three transient worker deaths in one check")
+                    gate_fail = True
+                continue
         if not ok:
             log("SIM-ERROR: violation did not reproduce from its plan (class %s oracle %s, batch %s): %s" % (cls, oracle, b.get("name"), detail[:3000]))
             gate_fail = True
@@ -787,6 +856,7 @@ def do_check(prop, tier, seed, extra):
         "known_findings_hit": known_hits,
         "other_property_oracles_fired": cov.get("other_property_oracles", {}),
         "violations_not_minimised": cov.get("violations_not_minimised", {}),
+        "transient_worker_deaths": cov.get("transient_worker_deaths", []),
         "components": {"real": ["libtfhe-<backend>.so built from /repo/src by the repo's CMake (all evaluation, key generation, serialisation code)", "libfftw3", "glibc stdio", "libstdc++ iostreams"],
                        "simulated": ["client/cloud actors", "byte store and wire (fopencookie FILE*, custom streambuf)", "scheduler", "omniscient observer arithmetic", "entropy/time watchdog"]},
         "tree_hash": th,
